@@ -1348,3 +1348,136 @@ func c16HostEqualByAddress(p *Program, r *Report) {
 		r.Unresolved("(*HostInfo).Equal has no return")
 	}
 }
+
+// c18FramerNegotiated: every framer of a connection is built with the compressor that was negotiated for that
+// connection (the Conn's compressor field, which STARTUP clears when the server did not advertise the algorithm),
+// never with the configured one: no call of newFramer takes its compressor from a configuration struct.
+func c18FramerNegotiated(p *Program, r *Report) {
+	nf := p.Func("newFramer")
+	if nf == nil {
+		r.Unresolved("newFramer not found")
+		return
+	}
+	cfgFields := map[types.Object]bool{}
+	for _, tn := range []string{"ConnConfig", "ClusterConfig"} {
+		if f := p.Field(tn, "Compressor"); f != nil {
+			cfgFields[f] = true
+		}
+	}
+	n := 0
+	for _, fi := range p.SortedFuncs() {
+		if fi.Decl.Body == nil || fi.Pkg != p.Root {
+			continue
+		}
+		info := fi.Pkg.TypesInfo
+		for _, c := range callsIn(fi.Decl.Body) {
+			if calleeOf(info, c) != nf.Obj || len(c.Args) == 0 {
+				continue
+			}
+			n++
+			fromCfg := false
+			ast.Inspect(c.Args[0], func(x ast.Node) bool {
+				if e, ok := x.(ast.Expr); ok {
+					if f := fieldOf(info, e); f != nil && cfgFields[f] {
+						fromCfg = true
+					}
+				}
+				return true
+			})
+			r.Check(!fromCfg, c, fi.Name+" builds its framer with the negotiated compressor", exprStr(c.Args[0]),
+				"the framer is built with the configured compressor "+exprStr(c.Args[0])+", not the connection's negotiated one: when the server did not advertise the algorithm every request after STARTUP is still sent compressed and flagged, and a compressed response is decoded although no compression was agreed")
+		}
+	}
+	if n == 0 {
+		r.Unresolved("no call of newFramer found")
+	}
+}
+
+// c14ErrorFrameIsFrame: a server ERROR answer reaches the executor as a frame (parseFrame's frame result), where the
+// UNPREPARED case evicts the cached id and prepares again. parseFrame never returns what parseErrorFrame produced in
+// its error position: that would make `case *RequestErrUnprepared` unreachable, and a statement the server forgot
+// would fail for ever with the stale id still cached.
+func c14ErrorFrameIsFrame(p *Program, r *Report) {
+	fi := r.NeedFunc("(*framer).parseFrame")
+	pe := p.Func("(*framer).parseErrorFrame")
+	if fi == nil || pe == nil {
+		if pe == nil {
+			r.Unresolved("(*framer).parseErrorFrame not found")
+		}
+		return
+	}
+	info := fi.Pkg.TypesInfo
+	derived := map[types.Object]bool{}
+	mentions := func(e ast.Node) bool {
+		hit := false
+		ast.Inspect(e, func(x ast.Node) bool {
+			switch v := x.(type) {
+			case *ast.CallExpr:
+				if calleeOf(info, v) == pe.Obj {
+					hit = true
+				}
+			case *ast.Ident:
+				if o := info.Uses[v]; o != nil && derived[o] {
+					hit = true
+				}
+			}
+			return !hit
+		})
+		return hit
+	}
+	for changed := true; changed; {
+		changed = false
+		ast.Inspect(fi.Decl.Body, func(x ast.Node) bool {
+			as, ok := x.(*ast.AssignStmt)
+			if !ok {
+				return true
+			}
+			src := false
+			for _, rh := range as.Rhs {
+				if mentions(rh) {
+					src = true
+				}
+			}
+			if !src {
+				return true
+			}
+			for _, l := range as.Lhs {
+				if id, isId := l.(*ast.Ident); isId && id.Name != "_" {
+					if o := info.ObjectOf(id); o != nil && !derived[o] {
+						derived[o] = true
+						changed = true
+					}
+				}
+			}
+			return true
+		})
+	}
+	n := 0
+	inspectNoLit(fi.Decl.Body, func(x ast.Node) bool {
+		rs, ok := x.(*ast.ReturnStmt)
+		if !ok || len(rs.Results) < 2 {
+			return true
+		}
+		n++
+		last := rs.Results[len(rs.Results)-1]
+		r.Check(!mentions(last), rs, "(*framer).parseFrame hands a server error back as a frame", "error result independent of parseErrorFrame",
+			"parseFrame returns the parsed ERROR frame as its error result ("+exprStr(last)+"): the executors never see it in their type switch, so the UNPREPARED case (evict the cached id, prepare again) is unreachable and the statement fails with the stale id still cached")
+		return true
+	})
+	if n == 0 {
+		// named results with bare returns: the error result variable must not be assigned from the error frame
+		if fi.Decl.Type.Results != nil {
+			for _, f := range fi.Decl.Type.Results.List {
+				for _, nm := range f.Names {
+					if o := info.Defs[nm]; o != nil && isErrorType(o.Type()) {
+						n++
+						r.Check(!derived[o], fi.Decl, "(*framer).parseFrame hands a server error back as a frame", "error result independent of parseErrorFrame", "the error result "+nm.Name+" is assigned from the parsed ERROR frame")
+					}
+				}
+			}
+		}
+	}
+	if n == 0 {
+		r.Unresolved("parseFrame: no return with an error result found")
+	}
+}
